@@ -25,6 +25,7 @@ def units(tier):
         us += [("CLASSREP", n, i, k, n <= 3 or tier == "thorough") for i in range(k)]
     us += [("FULL", 1, 0, 1), ("WHOLE",)] + [("FULL", 2, i, 16) for i in range(16)]
     us += [("AWKWARD", n, i, 4 if n < 3 else 16, True) for n in (1, 2, 3) for i in range(4 if n < 3 else 16)]
+    us += [("SKELETON", n, i, 4 if n < 3 else 16, False) for n in (1, 2, 3) for i in range(4 if n < 3 else 16)]
     return us
 
 
@@ -172,13 +173,17 @@ def run_unit(unit):
     if unit[0] == "WHOLE":
         return run_whole(res)
     kind, n, shard, k = unit[:4]
-    if kind in ("CLASSREP", "AWKWARD"):
+    if kind in ("CLASSREP", "AWKWARD", "SKELETON"):
         all_variants = unit[4]
         rotations = [None]
         if kind == "AWKWARD":
             # every rotation of the awkward operand list, so that each awkward operand reaches each leaf position
             aw = E.OPERANDS_AWKWARD
             rotations = [aw[r:] + aw[:r] for r in range(len(aw))]
+        if kind == "SKELETON":
+            # skeleton operators over leaves that are small expressions themselves (up to 3 + 4 = 7 operators per tree), every rotation
+            sl = E.SUBTREE_LEAVES
+            rotations = [sl[r:] + sl[:r] for r in range(len(sl))]
         for ops_ in rotations:
             for i, ast in enumerate(list(E.asts(n, E.CLASS_BIN, E.CLASS_UN, ops_))):
                 if i % k != shard or not E.well_formed(ast):
